@@ -11,6 +11,7 @@ EXPLANATION = ("C06: every message in push.c is on every path in exactly one pla
                "parked only after the ready list was empty and the buffer refused the message; a pull pipe has one "
                "outstanding receive, re-armed only when its held message was handed up, and fini frees a held message."
                " Also: protocol state is written under the socket lock at every site (C03.O7 run here as R5) and a resized lmq wraps its cursors with the new mask (C18.R8 as R6).")
+EXPLANATION += ' Round 3: once the failure branch of a pipe callback has closed the pipe nothing more is done with it (R7); the lock discipline also covers queue and list mutators.'
 
 
 def rule_r1(ctx):
